@@ -11,6 +11,7 @@ import (
 	"net/http"
 	"net/url"
 	"path"
+	"reflect"
 	"regexp"
 	"sort"
 	"strconv"
@@ -369,6 +370,25 @@ func (o *originRT) RoundTrip(req *http.Request) (*http.Response, error) {
 		end("ctx")
 		return nil, ctxErr(req.Context())
 	}
+	var slot *connSlot
+	if r.Scn.MaxConns > 0 {
+		var ok bool
+		if slot, ok = r.acquireConn(req.Context(), call); !ok {
+			call.CancelAt = r.Sim.Now()
+			if r.Sim.Aborted() {
+				call.ErrKind = "abort"
+				return nil, errors.New("sim: run over")
+			}
+			end("ctx")
+			return nil, ctxErr(req.Context())
+		}
+		defer func() {
+			// an exchange that ends without a response body to read gives its connection back at once
+			if !slot.handedOver {
+				r.releaseConn(slot)
+			}
+		}()
+	}
 	if plan.Fault == "hang" {
 		r.fired("net.hang")
 		cancelled := r.Sim.Sleep(-1, done, "up:hang")
@@ -407,7 +427,110 @@ func (o *originRT) RoundTrip(req *http.Request) (*http.Response, error) {
 	or.TStart, or.TResp = call.TStart, call.TEnd
 	or.SeqResp = r.Sim.Event(g, "up.resp", fmt.Sprintf("#%d sid=%d status=%d cc=%q vary=%q len=%d 304=%v", call.ID, or.SID, or.Status, or.Header.Get("Cache-Control"), or.Header.Get("Vary"), len(or.Body), or.Is304))
 	call.SeqEnd = or.SeqResp
+	if slot != nil && resp.Body != nil && resp.Body != http.NoBody {
+		slot.handedOver = true
+		resp.Body = &pooledBody{ReadCloser: resp.Body, r: r, slot: slot}
+	}
 	return resp, nil
+}
+
+// connSlot is one connection of the bounded pool. It is in use from the moment the request is sent until the
+// response body has been read to its end (or has failed), is closed, or the request's context ends - the
+// rules of net/http's transport with MaxConnsPerHost.
+type connSlot struct {
+	ctx        context.Context
+	call       *UpCall
+	released   bool
+	handedOver bool
+}
+
+type pooledBody struct {
+	io.ReadCloser
+	r    *Run
+	slot *connSlot
+}
+
+func (b *pooledBody) Read(p []byte) (int, error) {
+	n, err := b.ReadCloser.Read(p)
+	if err != nil {
+		b.r.releaseConn(b.slot)
+	}
+	return n, err
+}
+
+func (b *pooledBody) Close() error {
+	b.r.releaseConn(b.slot)
+	return b.ReadCloser.Close()
+}
+
+func (r *Run) releaseConn(s *connSlot) {
+	r.mu.Lock()
+	defer r.mu.Unlock()
+	if s.released {
+		return
+	}
+	s.released = true
+	for i, c := range r.conns {
+		if c == s {
+			r.conns = append(r.conns[:i], r.conns[i+1:]...)
+			break
+		}
+	}
+	if r.connFree != nil {
+		close(r.connFree)
+		r.connFree = nil
+	}
+}
+
+// acquireConn waits until the pool has a connection to spare (false: the request's context ended, or the run
+// was aborted, first). Waiters that wake together re-apply after a scheduler step each, so who gets the
+// connection is the scheduler's decision.
+func (r *Run) acquireConn(ctx context.Context, call *UpCall) (*connSlot, bool) {
+	for {
+		r.mu.Lock()
+		// connections whose request context has ended are closed by the transport
+		live := r.conns[:0:0]
+		for _, c := range r.conns {
+			if ctxOver(c.ctx) {
+				c.released = true
+				continue
+			}
+			live = append(live, c)
+		}
+		r.conns = live
+		if len(r.conns) < r.Scn.MaxConns {
+			s := &connSlot{ctx: ctx, call: call}
+			r.conns = append(r.conns, s)
+			call.GotConn = true
+			r.mu.Unlock()
+			return s, true
+		}
+		if !call.ConnWait {
+			call.ConnWait = true
+			r.Faults["net.conn-wait"]++
+		}
+		if r.connFree == nil {
+			r.connFree = make(chan struct{})
+		}
+		cases := []reflect.SelectCase{
+			{Dir: reflect.SelectRecv, Chan: reflect.ValueOf(r.connFree)},
+			{Dir: reflect.SelectRecv, Chan: reflect.ValueOf(r.Sim.AbortCh())},
+		}
+		if d := ctx.Done(); d != nil {
+			cases = append(cases, reflect.SelectCase{Dir: reflect.SelectRecv, Chan: reflect.ValueOf(d)})
+		}
+		for _, c := range r.conns {
+			if d := c.ctx.Done(); d != nil {
+				cases = append(cases, reflect.SelectCase{Dir: reflect.SelectRecv, Chan: reflect.ValueOf(d)})
+			}
+		}
+		r.mu.Unlock()
+		reflect.Select(cases)
+		r.Sim.Yield("up:conn-wait")
+		if r.Sim.Aborted() || ctxOver(ctx) {
+			return nil, false
+		}
+	}
 }
 
 // ctxOver: cancelled, or its deadline has been reached. A latency that ends at the very instant of
